@@ -18,4 +18,10 @@ theorem listing_copies : Facts.listingMetadataStmts = some [
 /-- exact and default search build their results from `getDocument` (the `consider` closure) -/
 theorem consider_uses_getDocument : Facts.considerConds.map (fun l => l.head?) = some (some "err != nil") := rfl
 
+/-- the caller's slices are not retained: every statement of `AddDocument` / `UpdateDocument` that mentions a parameter slice
+    (or the local document and stream list built from it) and every statement of `WriteRecord` that mentions the streams:
+    a length check, local literals, `encodeDocument`, `serializeSpan` — which copies into a fresh byte slice — and nothing
+    that stores them in the collection or the span file -/
+theorem caller_slices_not_retained : Facts.callerSliceUses = some ["AddDocument: if len(vector) != c.DimensionCount { log.Panicf(\"vector size does not match the expected number of dimensions: expected %d, got %d\", c.DimensionCount, len(vecto", "AddDocument: doc := &Document{ Vector: vector, Metadata: metadata, ID: id, }", "AddDocument: encodedVector := encodeDocument(doc, c.Quantization)", "AddDocument: dataStreams := []DataStream{ {StreamID: 0, Data: metadata}, {StreamID: 1, Data: encodedVector}, }", "AddDocument: err := c.spanfile.WriteRecord(fmt.Sprintf(\"%d\", id), dataStreams)", "UpdateDocument: dataStreams := []DataStream{ {StreamID: 0, Data: newMetadata}, {StreamID: 1, Data: span.DataStreams[1].Data}, }", "UpdateDocument: err = c.spanfile.WriteRecord(fmt.Sprintf(\"%d\", id), dataStreams)", "WriteRecord: span := &Span{ MagicNumber: activeMagic, SequenceNumber: sequenceNumber, RecordID: recordID, DataStreams: dataStreams, }", "WriteRecord: spanBytes, err := serializeSpan(span)"] := rfl
+
 end Syzgy.Tie.Snapshot
